@@ -66,6 +66,7 @@ pub fn plan(prop: &str) -> Option<Plan> {
         }
         "C03" => {
             p.name = "C03";
+            p.w_sweep_fault = 2;
             p.o_temps = 14;
             p.o_read = 6;
             p.w_adjust = 8;
@@ -88,6 +89,8 @@ pub fn plan(prop: &str) -> Option<Plan> {
             p.name = "C04";
             p.w_drop_arena = 5;
             p.w_drop_fault = 3;
+            p.w_sweep_fault = 3;
+            p.w_drop_unwinding = 2;
             p.w_new_arena = 4;
             p.o_link_weak = 14;
             p.o_unlink = 12;
@@ -106,6 +109,7 @@ pub fn plan(prop: &str) -> Option<Plan> {
         }
         "C05" => {
             p.name = "C05";
+            p.w_sweep_fault = 3;
             p.o_link_weak = 24;
             p.w_settle = 8;
             p.kinds.push((10, Kind::DB));
@@ -254,6 +258,8 @@ pub fn plan(prop: &str) -> Option<Plan> {
             p.w_settle = 8;
             p.w_drop_arena = 2;
             p.w_drop_fault = 2;
+            p.w_sweep_fault = 4;
+            p.w_drop_unwinding = 1;
             Plan {
                 prop: "C11",
                 profile: p,
@@ -309,6 +315,8 @@ pub fn plan(prop: &str) -> Option<Plan> {
             p.name = "C20";
             p.w_new_arena = 8;
             p.w_drop_arena = 4;
+            p.w_drop_unwinding = 4;
+            p.w_drop_fault = 2;
             p.o_fetch = 6;
             p.o_stash = 6;
             p.w_settle = 6;
